@@ -6,6 +6,22 @@ PENDING = "check not built yet in this round (design in DESIGN.md §5); not clai
 
 # id -> dict(claimed, text, note, technique)
 P = {
+ "C02": dict(claimed=True,
+   text="Ordering of a history is not a code shape. Decided on every CFG path: the structural necessary conditions of the retry-level protocol (route-once per message in the partition worker, park guard and no forward below the high watermark, sent-before-buffered retry order with the bounce state set, ordered flush + clear of parked buffers, single produce request in flight per broker worker, FIFO use of the retry queue).",
+   note="Does not decide the interleaving argument; value/schedule-dependent reordering (Retry.Max=0, abandoned broker) has no structural signature and is not covered.",
+   technique="SSA path-counting, must-precede and guard queries; who-may-store/send tables (custom go/ssa analyzer)"),
+ "C03": dict(claimed=True,
+   text="Structural necessary conditions decided on every path of consumer.go: deliver only under offset >= child.offset and advance to offset+1; provenance of every field of the delivered message; fetch request built from the same subscription; acks WaitGroup pairing and Add/feed/Wait/handle order; every failed subscription redispatched exactly once; tabled senders/writers.",
+   note="Offset arithmetic of legacy v1 wrappers, partial-trailing handling, fetch-size doubling and progress under faults are numeric/liveness questions and not covered.",
+   technique="SSA guard (dominating-predicate) and provenance matching, exactly-once path counting per loop iteration"),
+ "C11": dict(claimed=True,
+   text="Decided on every path of parseResponse: the append of a batch's messages is guarded by not-control and by the read-committed filter (and skipped only when transactional AND aborted), unfiltered under ReadUncommitted; parseRecords precedes the filters; aborted set insert/pop/delete guards; index sorted by FirstOffset; isolation level sent in the request.",
+   note="State is per fetch response: transactions spanning responses and completeness of the broker's index are not covered.",
+   technique="SSA guard queries with canonical predicates, must-precede/must-follow path queries"),
+ "C18": dict(claimed=True,
+   text="Decided on every path: producer interceptors only on the first pass (guard retries == 0); every send on Messages() preceded by exactly one interceptor application to that element, with the slow-reader loop's first element (already intercepted by the outer loop) evaluated separately by pruning branches on the induction variable; OnSend/OnConsume only inside the recover wrapper after a deferred recover().",
+   note="What an interceptor does to a message and panics outside the interceptor call are not covered.",
+   technique="SSA guard queries, per-iteration path counting with induction-variable branch pruning, who-may-call table"),
  "C01": dict(claimed=True,
    text="Structural necessary conditions of exactly-one-outcome decided on every CFG path of the producer pipeline (emit/Done pairing, no partially disposed batch, marker accounting, exactly-once routing of every partition set, retry budget guards, Wait-before-close, sync-producer expectation protocol). It is not a proof of the behaviour: cross-goroutine liveness of the retry loop is not covered.",
    note="Trusts go/ssa's model of the source; disposer functions are computed as a fixed point from the source, channel/field anchors are named in rules_c01.go.",
